@@ -171,37 +171,46 @@ LAYOUT_DESCR = {"C": "a C-contiguous array", "F": "np.asfortranarray(x) (what a 
 FILL = 7777.0       # what lies next to the operand in the parent buffer of a view: reading it must show
 
 
-def T(a, requires_grad=False, layout="C"):
+DTYPES = ((None, "f64"), ("f32", "f64"), ("f64", "f32"), (None, "f32"))     # (dtype of a preceding call on the same geometry | None, dtype of the judged call)
+
+
+def np_dtype(name):
+    np = _impl().np
+    return {"f64": np.float64, "f32": np.float32, None: np.float64}[name]
+
+
+def T(a, requires_grad=False, layout="C", dtype="f64"):
     """float64 Tensor with the given values in one of several memory layouts (see LAYOUT_DESCR): contiguous, Fortran order, or a
     non-contiguous view of a larger buffer — with a strided last axis ('S') or with a still dense last axis ('R', 'K', 'B', 'P').
     The ops must not depend on the memory layout of their operands."""
     impl = _impl()
     np = impl.np
-    arr = np.array(a, dtype=np.float64)
+    dt = np_dtype(dtype)
+    arr = np.array(a, dtype=dt)
     nd = arr.ndim
     if arr.size == 0 or nd == 0:
         return impl.synapgrad.Tensor(arr, requires_grad=requires_grad)
     if layout == "F" and nd > 1:
         arr = np.asfortranarray(arr)
     elif layout == "S":
-        big = np.full(arr.shape[:-1] + (2 * arr.shape[-1],), FILL)
+        big = np.full(arr.shape[:-1] + (2 * arr.shape[-1],), FILL, dtype=dt)
         big[..., ::2] = arr
         arr = big[..., ::2]
     elif layout == "R" and nd >= 3:
         if nd == 4:
-            big = np.full(arr.shape[:2] + (arr.shape[2] + 4, arr.shape[3]), FILL)
+            big = np.full(arr.shape[:2] + (arr.shape[2] + 4, arr.shape[3]), FILL, dtype=dt)
             big[:, :, 2:-2, :] = arr
             arr = big[:, :, 2:-2, :]
         else:
-            big = np.full(arr.shape[:-1] + (arr.shape[-1] + 2,), FILL)
+            big = np.full(arr.shape[:-1] + (arr.shape[-1] + 2,), FILL, dtype=dt)
             big[..., 1:-1] = arr
             arr = big[..., 1:-1]
     elif layout == "K" and nd >= 2:
-        big = np.full((arr.shape[0], arr.shape[1] + 2) + arr.shape[2:], FILL)
+        big = np.full((arr.shape[0], arr.shape[1] + 2) + arr.shape[2:], FILL, dtype=dt)
         big[:, 1:1 + arr.shape[1]] = arr
         arr = big[:, 1:1 + arr.shape[1]]
     elif layout == "B":
-        big = np.full((2 * arr.shape[0],) + arr.shape[1:], FILL)
+        big = np.full((2 * arr.shape[0],) + arr.shape[1:], FILL, dtype=dt)
         big[::2] = arr
         arr = big[::2]
     elif layout == "P" and nd >= 2:
@@ -276,14 +285,15 @@ _WORKER = _Worker()
 def describe_call(f, P):
     g = P.get("g", {})
     geo = ", ".join("%s=%s" % (k, g[k]) for k in g)
-    return "%s(%s) on x = %s; geometry %s" % (getattr(f, "__name__", "call"), P.get("op"), LAYOUT_DESCR.get(P.get("layout", "C")), geo)
+    dts = "dtype %s" % P.get("dtype", "f64") + (" after a %s call on the same geometry" % P["pre_dtype"] if P.get("pre_dtype") else "")
+    return "%s(%s) on x = %s, %s; geometry %s" % (getattr(f, "__name__", "call"), P.get("op"), LAYOUT_DESCR.get(P.get("layout", "C")), dts, geo)
 
 
 def call(f, *a, **k):
     """('ok', value) | ('raises', ExceptionName) | ('crash', description).  A call whose first argument is a payload with a
     non-C-contiguous operand layout is executed in the worker process, so that an interpreter crash becomes a result."""
     P = a[0] if a and isinstance(a[0], dict) else None
-    if P is not None and (P.get("layout", "C") != "C" or os.environ.get("VERIF_ISOLATE_ALL")):
+    if P is not None and (P.get("layout", "C") != "C" or P.get("pre_dtype") or P.get("dtype", "f64") != "f64" or os.environ.get("VERIF_ISOLATE_ALL")):
         r = _WORKER.call(f, a, k)
         if r[0] == "crash":
             return ("crash", "%s in %s" % (r[1], describe_call(f, P)))
@@ -363,39 +373,59 @@ def geo_args(P):
     return g["k"], g["s"], g["p"], g["d"]
 
 
-def run_impl(P, backward=False):
-    """Run the implementation. Returns dict(out=ndarray, grads={name: ndarray}); raises whatever the implementation raises."""
+def forward_tensors(P, requires_grad, dtype):
+    """the op of P applied to fresh tensors of the given dtype: (output tensor, {name: input tensor})"""
     impl = _impl()
-    np, NF, sg = impl.np, impl.NF, impl.synapgrad
+    NF = impl.NF
     op = P["op"]
     ks, st, pd, dl = geo_args(P)
     ins = {}
     lay = P.get("layout", "C")
     if op in ("conv2d", "conv1d"):
-        ins["x"] = T(P["x"], backward, lay)
-        ins["w"] = T(P["w"], backward, "F" if lay == "S" else "C")
+        ins["x"] = T(P["x"], requires_grad, lay, dtype)
+        ins["w"] = T(P["w"], requires_grad, "F" if lay == "S" else "C", dtype)
         if P.get("b") is not None:
-            ins["b"] = T(P["b"], backward)
+            ins["b"] = T(P["b"], requires_grad, "C", dtype)
         f = NF.conv2d if op == "conv2d" else NF.conv1d
         out = f(ins["x"], ins["w"], ins.get("b"), st, pd, dl)
     elif op in ("max_pool2d", "avg_pool2d", "max_pool1d", "avg_pool1d"):
-        ins["x"] = T(P["x"], backward, lay)
+        ins["x"] = T(P["x"], requires_grad, lay, dtype)
         f = getattr(NF, op)
         if P.get("default_stride"):
             out = f(ins["x"], ks, None, pd, dl)
         else:
             out = f(ins["x"], ks, st, pd, dl)
     elif op == "unfold":
-        ins["x"] = T(P["x"], backward, lay)
+        ins["x"] = T(P["x"], requires_grad, lay, dtype)
         out = NF.unfold(ins["x"], ks, dl, st, pd, P.get("pv", 0))
     elif op == "fold":
-        ins["x"] = T(P["y"], backward, lay)
+        ins["x"] = T(P["y"], requires_grad, lay, dtype)
         out = NF.fold(ins["x"], (P["g"]["H"], P["g"]["W"]), ks, dl, st, pd)
     else:
         raise KeyError(op)
-    res = {"out": np.array(out.data, dtype=np.float64)}
+    return out, ins
+
+
+def prewarm(P):
+    """P['pre_dtype']: the same call (same geometry, same values) made once with another dtype before the judged call — results of a
+    call must not depend on what was computed before it (state kept between calls: caches keyed by the geometry)"""
+    if P.get("pre_dtype"):
+        try:
+            forward_tensors(P, False, P["pre_dtype"])
+        except Exception:       # noqa: BLE001
+            pass
+
+
+def run_impl(P, backward=False):
+    """Run the implementation. Returns dict(out=ndarray, grads={name: ndarray}); raises whatever the implementation raises."""
+    impl = _impl()
+    np, sg = impl.np, impl.synapgrad
+    prewarm(P)
+    dtype = P.get("dtype", "f64")
+    out, ins = forward_tensors(P, backward, dtype)
+    res = {"out": np.array(out.data, dtype=np.float64), "dtype": str(out.data.dtype)}
     if backward:
-        out.backward(sg.Tensor(np.array(P["up"], dtype=np.float64)))
+        out.backward(sg.Tensor(np.array(P["up"], dtype=np_dtype(dtype))))
         res["grads"] = {k: np.array(t.grad.data, dtype=np.float64) for k, t in ins.items()}
     return res
 
@@ -494,7 +524,8 @@ def impl_scalar(P, arrays):
     np = _impl().np
     Q = dict(P)
     Q.update(arrays)
-    Q["layout"] = "C"        # the derivative of the computed function, on contiguous copies (calls on views are isolated elsewhere)
+    Q["layout"] = "C"        # the derivative of the computed function, on contiguous float64 copies (calls on views / mixed dtypes are isolated elsewhere)
+    Q["dtype"] = "f64"; Q.pop("pre_dtype", None)
     out = run_impl(Q)["out"]
     up = np.array(P["up"], dtype=np.float64)
     m = np.isfinite(out)
@@ -759,21 +790,55 @@ def term_backward(P, grads):
 
 
 # ------------------------------------------------------------------ payload generation
-def make_payload(rng, op, g, bias=True, form="tuple", data="ints", layout="C"):
+def tie_rich(rng, shape, kind, mult=1):
+    """integer-valued images in which pooling windows hold their maximum several times:
+       small   values in {0,1,2};   relu   max(0, v) with v in -3..3 (many zeros, what follows a ReLU);
+       const   constant blocks (the image is a coarse 2x2-block image);   flat   one value everywhere (ties across overlapping windows and
+               along the -inf padding border);   neg   values in {-2,-1} (all below the zero a wrong pad value would contribute)"""
+    np = _impl().np
+    n = int(np.prod(shape))
+    if kind == "small":
+        v = [rng.randint(0, 2) for _ in range(n)]
+    elif kind == "relu":
+        v = [max(0, rng.randint(-3, 3)) for _ in range(n)]
+    elif kind == "flat":
+        c = rng.randint(-3, 3)
+        v = [c] * n
+    elif kind == "neg":
+        v = [rng.randint(-2, -1) for _ in range(n)]
+    else:   # const blocks along the last two axes
+        arr = np.zeros(shape)
+        it = np.ndindex(*shape[:-2]) if len(shape) > 2 else [()]
+        for idx in it:
+            hh, ww = (shape[-2] + 1) // 2, (shape[-1] + 1) // 2
+            blocks = np.array([[rng.randint(-2, 2) for _ in range(ww)] for _ in range(hh)], dtype=np.float64)
+            arr[idx] = np.kron(blocks, np.ones((2, 2)))[:shape[-2], :shape[-1]]
+        return arr * mult
+    return (np.array(v, dtype=np.float64) * mult).reshape(shape)
+
+
+TIE_KINDS = ("small", "relu", "const", "flat", "neg")
+
+
+def make_payload(rng, op, g, bias=True, form="tuple", data="ints", layout="C", dtypes=(None, "f64"), zero_bias=False):
     """integer-valued inputs for op on geometry g (avg pools: multiples of the kernel size so that every mean is an integer is NOT
     needed: results are compared as exact rationals)"""
     np = _impl().np
-    P = {"op": op, "g": dict(g), "form": form, "layout": layout}
+    P = {"op": op, "g": dict(g), "form": form, "layout": layout, "dtype": dtypes[1]}
+    if dtypes[0]:
+        P["pre_dtype"] = dtypes[0]
     if is2d(op):
         xs = (g["N"], g["C"], g["H"], g["W"])
     else:
         xs = (g["N"], g["C"], g["W"])
     if op in ("conv2d", "conv1d"):
-        Co = rng.choice((1, 2, 3))
+        Co = 1 if zero_bias else rng.choice((1, 2, 3))
         P["x"] = ints(rng, xs).tolist()
         ws = (Co, g["C"], g["kH"], g["kW"]) if is2d(op) else (Co, g["C"], g["k"])
         P["w"] = ints(rng, ws, -4, 4).tolist()
         P["b"] = ints(rng, (Co,), -20, 20).tolist() if bias else None
+        if zero_bias:
+            P["b"] = [0.0]          # one output channel whose bias is exactly zero: still an operand (it must receive its gradient)
     elif op == "fold":
         lH = out_size(g["H"], g["kH"], g["sH"], g["pH"], g["dH"]); lW = out_size(g["W"], g["kW"], g["sW"], g["pW"], g["dW"])
         P["y"] = ints(rng, (g["N"], g["C"] * g["kH"] * g["kW"], max(lH, 0) * max(lW, 0))).tolist()
@@ -781,7 +846,10 @@ def make_payload(rng, op, g, bias=True, form="tuple", data="ints", layout="C"):
         mult = 1
         if op.startswith("avg"):     # every window sum divisible by the kernel size: the mean is an integer, float64 exact
             mult = g["kH"] * g["kW"] if is2d(op) else g["k"]
-        P["x"] = (distinct_ints(rng, xs, mult) if data == "distinct" else ints(rng, xs, -5, 5, mult)).tolist()
+        if data in TIE_KINDS:
+            P["x"] = tie_rich(rng, xs, data, mult).tolist()
+        else:
+            P["x"] = (distinct_ints(rng, xs, mult) if data == "distinct" else ints(rng, xs, -5, 5, mult)).tolist()
         if op == "unfold":
             P["pv"] = rng.choice((0, 0, -7))
     return P
